@@ -43,7 +43,8 @@ static void vh_fatal(int sig) {
 	const char *what = (sig == SIGALRM) ? "TIMEOUT" : "CRASH";
 	int n;
 	if (vh_out) fflush(vh_out);
-	n = snprintf(buf, sizeof(buf), "{\"op\":\"%s\",\"i\":%ld,\"sig\":%d}\n", what, (long)vh_case, sig);
+	/* on a line of its own: the event being written when the signal arrived is left unterminated */
+	n = snprintf(buf, sizeof(buf), "\n{\"op\":\"%s\",\"i\":%ld,\"sig\":%d}\n", what, (long)vh_case, sig);
 	if (vh_outfd >= 0) { if (write(vh_outfd, buf, n) < 0) {} }
 	_exit(sig == SIGALRM ? 3 : 4);
 }
